@@ -77,7 +77,7 @@ def build_query(vc, depth=DEPTH, extra_assumptions=()):
     inst = instantiate(fs, depth, getattr(vc, "reveal", ()), getattr(vc, "unfold_only", None))
     # non-recursive ("macro") definitions may also be needed at terms that only E-matching creates
     for f in SPEC.values():
-        if f.macro and f.define is not None:
+        if f.macro and f.define is not None and (not f.opaque or f.name in getattr(vc, "reveal", ())):
             vs = [z3.Const("m%d_%s" % (i, f.name), f.decl.domain(i)) for i in range(f.decl.arity())]
             lem.append(z3.ForAll(vs, f.decl(*vs) == f.define(*vs), patterns=[f.decl(*vs)]))
     s = z3.Solver()
